@@ -14,7 +14,7 @@ CLAIMED = {
  "C15": ("Round-trip theorems (all inputs of each codec's domain, unbounded) for the Gallina transcriptions of the CFF/T2/T1 integer "
          "and 16.16 operand codecs, 255UInt16, UIntBase128 (plus totality of its decoder), uint32var, eexec, and the gvar/cvar run-length "
          "codecs for packed deltas (zero/byte/word/long runs, 64-value chunks; every int32 list compiles) and packed point numbers (byte/word "
-         "runs of up to 128 points, 15-bit count); the models are tied to "
+         "runs of up to 128 points, 15-bit count), and table tags as identifiers; the models are tied to "
          "the Python functions by differential correspondence on boundary-directed and malformed inputs and by the round-trip oracle on the "
          "implementation. Codecs not yet modelled are listed in DESIGN.md section C15.",
          "Rocq proof of codec round-trip theorems over a hand-written model + extracted-model/implementation correspondence"),
@@ -127,7 +127,9 @@ CLAIMED = {
          "Rocq proof that generalisation preserves the interpreter's drawing + correspondence of both models + rewrite sweeps"),
  "C05": ("Theorems over exact rationals: the inferred delta computed by iup_segment is, for every coordinate, the one the OpenType "
          "specification defines for points without explicit deltas (a relational specification written from the gvar text, "
-         "iup1_meets_spec), never overshoots the reference deltas, and does not depend on the order of the two reference points. "
+         "iup1_meets_spec), never overshoots the reference deltas, and does not depend on the order of the two reference points; for whole "
+         "contours (iup_contour_spec) explicit deltas are kept and every other point is inferred from the nearest explicit points before "
+         "and after it around the contour, wrap-around included. "
          "iup_segment/iup_contour/iup_delta are modelled and tied to the code by exact correspondence on rational inputs with every "
          "explicit/inferred pattern. The rest of the pipeline (outline decoding, components, gvar application order, phantom-point advances, "
          "HVAR, avar, clamping, CFF/CFF2 charstrings incl. flex ties) is compared glyph by glyph with HarfBuzz on corpus and generated fonts at "
